@@ -42,7 +42,7 @@ def runCase (w : List String) : String :=
       let good := (reals.filter (fun t => goodNumB t.1)).length
       let stoks := realEntryToks tokCodec sufs
       let sgood := (stoks.filter goodSufTokB).length
-      s!"{id} good={good}/{reals.length} goodsuf={sgood}/{stoks.length} bytes={hex b} || {showResult (readSol (fx != 0) nv nc ⟨0, .all, .all, .all⟩ b)}"
+      s!"{id} good={good}/{reals.length} goodsuf={sgood}/{stoks.length} bytes={hex b} || {showResult (readSol (fx % 2 != 0) (fx / 2 % 2 != 0) nv nc ⟨0, .all, .all, .all⟩ b)}"
     | _, _, _, _, _, _, _, _, _, _, _, _ => "bad-op"
   | _ => "bad-op"
 
